@@ -46,15 +46,17 @@ public:
      * \param[in] term Term to be added
      */
     void add_term(TermType const& term) {
-        typename std::set<TermType, Compare>::iterator it = data.find(term);
-        if(it == data.end()) { // new term
-            data.insert(term);
-        } else {               // similar term
-            TermType sum = *it;
-            sum += term;
-            data.erase(*it);
-            if(!is_negligible(sum, data.size() + 1))
-                data.insert(sum);
+        TermType sum = term;
+        for(;;) {
+            std::pair<typename std::set<TermType, Compare>::iterator, bool> res = data.insert(sum);
+            if(res.second) return;       // new term
+            // similar term: reduce the two to one. operator+=() may move the reduced term
+            // next to another stored term, so its insertion is attempted again.
+            TermType reduced = *res.first;
+            reduced += sum;
+            data.erase(res.first);
+            if(is_negligible(reduced, data.size() + 1)) return;
+            sum = reduced;
         }
     }
 
